@@ -283,7 +283,9 @@ def _instantiate(f, pools, depth=0):
             if s.name() == "Int":
                 pool = pool + [z3.IntVal(k) for k in range(0, 3)]
             if not pool:
-                return f
+                # no ground term of this sort to instantiate with: the assumption is dropped (weaker assumptions: still sound for
+                # `unsat => discharged`; a `sat` answer is only a CANDIDATE model, confirmed by native replay or not at all)
+                return z3.BoolVal(True)
             cands.append(pool)
         total = 1
         for c in cands:
